@@ -25,6 +25,7 @@
 -/
 import TshVerif.Lemmas.BashStmt
 import TshVerif.Lemmas.SemProg
+import TshVerif.Lemmas.SemDet
 namespace Tsh.C01
 open Tsh Tsh.Tr Tsh.Bash
 
@@ -140,6 +141,23 @@ theorem bash_preserves_scalar_semantics (p : Program) (hf : Src.fragStmts p = tr
       · simp at hs
   · simp at hc
   · simp at hc
+
+open Tsh.Sem in
+/-- **The outcome is unique, and it is the one the executable bash model computes.**  The relation `ExecCmds`
+    is deterministic and the interpreter `execCmds` - the function that is run next to /bin/bash on the same
+    scripts in every check - is sound for it: so for a program of the fragment, whenever the source semantics
+    and the interpreter both finish, they give the same outcome and the same printed lines. -/
+theorem bash_model_outcome_unique (p : Program) (hf : Src.fragStmts p = true) (ls : List Line)
+    (hc : compile p = .ok ls) :
+    ∃ cmds : List Cmd, ls = .shebang :: flats cmds ∧
+      ∀ f1 f2 o1 out1 o2 c2, Src.runProgram f1 p = some (o1, out1) → execCmds f2 cmds Cfg.init = some (o2, c2) →
+        o1 = o2 ∧ out1 = c2.out := by
+  obtain ⟨cmds, e, sem⟩ := bash_preserves_scalar_semantics p hf ls hc
+  refine ⟨cmds, e, ?_⟩
+  intro f1 f2 o1 out1 o2 c2 h1 h2
+  obtain ⟨c', ex, eo⟩ := sem f1 o1 out1 h1
+  obtain ⟨e1, e2⟩ := exec_agrees h2 ex
+  exact ⟨e1.symm, by rw [← eo, e2]⟩
 
 open Tsh.Sem in
 /-- the hypotheses are satisfiable and the conclusion is about real behaviour: a counting loop with a
